@@ -205,8 +205,8 @@ Definition policy3_ok (p : policy3) : bool :=
 Definition orbit3 (n : N) (s : store) (p : policy3) (d : N) : option (list N) :=
   if policy3_ok p && (d <? n) then orbit (succ3 s p) (bfs_fuel n) d else None.
 
-(* the non-transactional orbit used inside three_sew / three_unsew: reads the committed store *)
-Fixpoint orbit_atomic_loop (fuel : nat) (idx : list N) (q m out : list N) : prog (list N) :=
+(* orbit_transac restricted to Custom policies, as used inside three_sew / three_unsew (face_sides_transac) *)
+Fixpoint orbit_tx3_loop (fuel : nat) (idx : list N) (q m out : list N) : prog (list N) :=
   match fuel with
   | O => Panic OutOfFuel
   | S f =>
@@ -216,14 +216,14 @@ Fixpoint orbit_atomic_loop (fuel : nat) (idx : list N) (q m out : list N) : prog
       ims <- (fix go (l : list N) : prog (list N) :=
                 match l with
                 | [] => Ret []
-                | i :: r => im <- rdB_atomic i d ;; ims <- go r ;; Ret (im :: ims)
+                | i :: r => im <- rdB i d ;; ims <- go r ;; Ret (im :: ims)
                 end) idx ;;
       let '(q2, m2) := fold_left check ims (q', m) in
-      orbit_atomic_loop f idx q2 m2 (d :: out)
+      orbit_tx3_loop f idx q2 m2 (d :: out)
     end
   end.
-Definition orbit_atomic (n : N) (idx : list N) (d : N) : prog (list N) :=
-  orbit_atomic_loop (bfs_fuel n) idx [d] [d; 0] [].
+Definition orbit_tx3 (n : N) (idx : list N) (d : N) : prog (list N) :=
+  orbit_tx3_loop (bfs_fuel n) idx [d] [d; 0] [].
 
 (** ** dim3/sews *)
 Definition one_sew3 (n : N) (ks : kinds) (ld rd : N) : prog unit :=
@@ -377,8 +377,8 @@ Fixpoint merge_pairs (ks : kinds) (c : cellkind) (with_vertices : bool) (ps : li
   end.
 
 Definition three_sew3 (n : N) (ks : kinds) (ld rd : N) : prog unit :=
-  lo <- orbit_atomic n [1; 0] ld ;;
-  ro <- orbit_atomic n [0; 1] rd ;;
+  lo <- orbit_tx3 n [1; 0] ld ;;
+  ro <- orbit_tx3 n [0; 1] rd ;;
   match lmin3 lo, lmin3 ro with
   | Some l_face, Some r_face =>
     pr <- sew3_pairs n lo ro ;;
@@ -421,8 +421,8 @@ Fixpoint unsew3_pairs (n : N) (ks : kinds) (ls rs : list N) : prog unit :=
 Definition three_unsew3 (n : N) (ks : kinds) (ld : N) : prog unit :=
   rd <- rdB 3 ld ;;
   three_unlink n ld ;;;
-  lo <- orbit_atomic n [1; 0] ld ;;
-  ro <- orbit_atomic n [0; 1] rd ;;
+  lo <- orbit_tx3 n [1; 0] ld ;;
+  ro <- orbit_tx3 n [0; 1] rd ;;
   match lmin3 lo, lmin3 ro with
   | Some l_face, Some r_face =>
     split_attributes ks KFace l_face r_face (N.min l_face r_face) ;;;
